@@ -40,3 +40,25 @@ PROPS['C05'] = {
                     'view(tree) equal to the unique derivation; Err otherwise. Recursion is proved terminating.'),
     'trusted': ['index_of_first, index_of_first_hybrid, index_of_first_binary_temp, index_of_first_unary (Iterator::position with a closure): assumed to return the first index whose token satisfies the predicate'],
 }
+
+_OPS_TRUSTED = [
+    'prelude/bn_model.rs: assumed contracts of biodivine-lib-param-bn 0.7.2 / biodivine-lib-bdd 0.6.3 (set algebra of GraphColoredVertices, '
+    'pre / var_pre as the asynchronous pre-image NOT intersected with the unit set, Bdd::{and,iff,exists}, mk_var_by_name with the '
+    '"{var}_extra_{i}" naming convention, graph.variables() yields 0..n)',
+    'R-callback: the progress observer only receives shared references and cannot influence results (Rust type system), it is removed before verification',
+    'R-for: `for v in graph.variables()[.rev()]` is replaced by its language-defined desugaring (loop + next())',
+    'termination of the `while old != new` fixed-point loops is not proved (partial correctness)',
+]
+
+PROPS['C13'] = {
+    'units': ['ops'],
+    'functions': {'ops': ['eval_ew', 'eval_aw', 'eval_au', 'eval_eu_saturated', 'eval_neg', 'eval_ax', 'eval_ex', 'eval_eg']},
+    'level_text': ('Proof that eval_ew / eval_aw return exactly E[phi U psi] or EG phi, resp. not E[not psi U (not phi and not psi)] '
+                   '(the equations of the statement, over least/greatest fixed points of an arbitrary coloured transition system), for every '
+                   'graph, every argument set and every number of loop iterations; psi-states satisfy both (lemma).'),
+    'level_note': 'Trusted: Verus/Z3, the assumed contracts of the BDD/graph library (prelude/bn_model.rs), extraction rules. Requires the self-loop set to make the graph total (true for the steady-state set). The dispatch from the syntax tree to these operators is covered by C01.',
+    'explanation': ('eval_ew and eval_aw (and their callees eval_au, eval_eu_saturated, eval_eg, eval_ex, eval_ax, eval_neg, each against its own '
+                    'fixed-point specification) are verified against ew_spec / aw_spec of spec/ctl.rs; lemma_ew_duality proves '
+                    'not A[not psi U (not phi and not psi)] == E[phi U psi] or EG phi on every transition system.'),
+    'trusted': _OPS_TRUSTED,
+}
